@@ -34,6 +34,25 @@ def run(ctx):
     ctx.rule("C17.sites", "every potential panic/truncation/bounds site of the 7 crates is discharged by a verified rule or is a reviewed site (exact key + reason)")
     PC.site_rule(ctx, w, CRATES, "C17.sites", floor=600, report_stale=True)
 
+    if ctx.tier == "thorough":
+        # build configuration B: the API crates with client+server features (generated request/response conversions, the multipart
+        # media parser), ruma-html/matrix, ruma-signatures/ring-compat
+        fxb = ctx.facts("B")
+        import os as _os
+        names = sorted({f.split("-")[0] for f in _os.listdir(fxb.dir) if f.endswith(".json")})
+        crates_b = [n for n in names if n.startswith("ruma") and n not in ("ruma_macros", "ruma")]
+        wb = W.World(fxb, crates_b)
+        ctx.rule("C17.sites-B", "the same site inventory over build configuration B (all ruma crates, extended features): every site is discharged by a "
+                                "verified rule or reviewed in spec/panic_allow.json / spec/panic_allow_B.json")
+        PC.site_rule(ctx, wb, crates_b, "C17.sites-B", floor=1500, extra_table=True)
+        edges_b = PC.call_graph(wb)
+        for comp in PC.recursive_sccs(edges_b):
+            anchors = [f for f in comp if f in RECURSION_OK]
+            if not anchors:
+                fn = wb.lookup(comp[0])
+                ctx.violation("C17.recursion", f"C17.recursion:B:{sorted(comp)[0]}", wb.where(fn) if fn else "",
+                              f"(configuration B) recursive component {sorted(comp)[:4]} has no reviewed depth bound")
+        ctx.count("call_graph_nodes_B", len(edges_b))
     ctx.rule("C17.recursion", "the only recursive call-graph components are the reviewed tree walks (a new recursion, e.g. one frame per word of a message body, is reported)")
     edges = PC.call_graph(w)
     sccs = PC.recursive_sccs(edges)
